@@ -260,6 +260,25 @@ def long_list_cases():
     return out
 
 
+def dup_list_cases():
+    """lists with REPEATED members (AppendToList never de-duplicates: adjacent and non-adjacent duplicates, via two Appends and via SetList),
+    then RemoveFromList and Get: every occurrence must be gone (the model's and the specification's remove is remove-ALL: filter)"""
+    out = []
+    st = lambda n, op, v=0, l=None: {"node": n, "op": dict({"op": op, "k": 0, "v": v}, **({"l": l} if l is not None else {}))}
+    for key, shared, pers in (("tunnox:user:dup", False, True), ("tunnox:client_mappings:dup", True, True), ("tunnox:client_mappings:dup", False, True),
+                              ("tunnox:conn_state:dup", True, False), ("tunnox:temp:dup", False, False)):
+        seqs = [
+            [st(0, "append", 7), st(0, "append", 7), st(0, "get"), st(0, "remove", 7), st(0, "get"), st(-1, "get")],                        # adjacent, via Append twice
+            [st(0, "append", 7), st(0, "append", 8), st(0, "append", 7), st(0, "remove", 7), st(0, "get"), st(-1, "get"), st(0, "remove", 8), st(0, "get")],
+            [st(0, "set", 0, [1, 2, 1, 3, 1]), st(0, "remove", 1), st(0, "get"), st(-1, "get"), st(0, "append", 1), st(0, "get")],          # via SetList-like Set, non-adjacent
+            [st(0, "set", 0, [4, 4, 4]), st(1, "remove", 4), st(1, "get"), st(-1, "get"), st(1, "exists")],                                 # all members equal
+            [st(0, "set", 0, [5, 6, 6, 5]), st(0, "remove", 6), st(0, "get"), st(0, "remove", 5), st(0, "get"), st(-1, "get")],
+        ]
+        for steps in seqs:
+            out.append({"mode": "nodes", "shared": shared, "pers": pers, "nodes": 2, "keys": [key], "kinds": ["x"], "init": [], "steps": steps, "dups": True})
+    return out
+
+
 def nodes_case(rng, cats, fixed):
     shared, pers = rng.random() < 0.5, rng.random() < 0.85
     nn = rng.choice([2, 3])
@@ -574,6 +593,7 @@ def run(ctx, only_cases=None):
         cases += [nodes_case(rng, cats, fixed["setnx"]) for _ in range(4000 if thorough else 350)]
         cases += alias_cases(rng, cats, 3000 if thorough else 200)
         cases += long_list_cases()
+        cases += dup_list_cases()
         gj = Gen(rng, cats, fixed["setnx"])
         for _ in range(1500 if thorough else 150):
             cj = gj.case()
